@@ -651,7 +651,7 @@ impl Property for C05 {
         "C05"
     }
     fn plan(&self, tier: Tier) -> Vec<Segment> {
-        let n = tier.pick(40_000, 400_000);
+        let n = tier.pick(160_000, 3_200_000);
         vec![
             Segment::random("u8", n, &[0], 8, 500),
             Segment::random("u16", n, &[1], 8, 500),
@@ -662,7 +662,7 @@ impl Property for C05 {
         ]
     }
     fn rule(&self) -> &'static str {
-        "case = (word type, bit width 0..=BITS, construction route, <=60 ops incl. atomic scripts and conversions) decoded from bytes; model = Vec of values; len/bit_width/every get/iter with exact length hints compared after every op; values that do not fit and indices out of range must panic and leave the contents unchanged. set() with width 0 is never generated (documented as undefined). Non-trivial: at least one write followed by a later read and at least one growth or shrink; distinct = distinct hash of the decoded history."
+        "case = (word type, bit width 0..=BITS, construction route, <=60 ops incl. atomic scripts, conversions and a Scribble op that writes garbage through the safe as_mut_slice() into the backend bits beyond len*width) decoded from bytes; model = Vec of values; len/bit_width/every get/iter with exact length hints compared after every op; values that do not fit and indices out of range must panic and leave the contents unchanged. set() with width 0 is never generated (documented as undefined). Non-trivial: at least one write followed by a later read and at least one growth or shrink; distinct = distinct hash of the decoded history."
     }
     fn run(&self, data: &[u8], cx: &mut Ctx) -> R {
         let (mode, rest) = data.split_first().unwrap_or((&0, &[]));
